@@ -9,7 +9,7 @@ PROFILE = {
     "C04": dict(universes=["nulls", "collide", "cgo"], drivers=["hints:%d", "nullrefs:%d", "cgo:%d", "dotlocal:%d", "scale:%d", "lateanon:%d"]),
     "C05": dict(universes=["collide", "reserved", "history"], drivers=["reserved:0", "paths:%d", "compete:%d", "cgo:%d", "history:%d", "scale:%d", "lateanon:%d"]),
     "C06": dict(universes=["dotlocal"], drivers=["dotlocal:%d", "scale:%d"]),
-    "C08": dict(universes=["history"], drivers=["history:%d", "scale:%d"]),
+    "C08": dict(universes=["history"], drivers=["history:%d", "scale:%d", "cgo:%d"]),
     "C15": dict(universes=["filemeta"], drivers=["filecomments:%d"]),
     "C18": dict(universes=["collide"], drivers=["std:0", "stdpairs:0", "scale:%d", "lateanon:%d"]),
     "C19": dict(universes=["cgo"], drivers=["cgo:%d", "scale:%d"]),
